@@ -731,6 +731,91 @@ def api_signature(fi: FunctionInfo):
     return _API.get(key)
 
 
+def _matrix_rooted(t) -> bool:
+    """A row or an entry of the pre-computed distance matrix (the model's field or the parameter of that name)."""
+    if t is None:
+        return False
+    n = 0
+    while t[0] == "idx":
+        t = t[1]
+        n += 1
+    return n >= 1 and ((t[0] == "attr" and t[2] == "pre_distances") or (t[0] == "param" and t[1] == "pre_distances"))
+
+
+def extension_fields(repo: Repo, cls: str) -> Dict[str, Term]:
+    """Fields that exist only to hold an option the documented constructor does not have: assigned in `__init__` from a
+    parameter that is not in the documented signature and has a constant default, written nowhere else (its own setter
+    apart), and never passed by any construction site of the library.  Every object the library builds holds the default
+    there, so a read of the field is that constant (what the option does when it is set is new behaviour, outside the
+    properties).  name (without leading underscore) -> constant term."""
+    key = ("extension_fields", cls)
+    if key in repo.memo:
+        return repo.memo[key]
+    out: Dict[str, Term] = {}
+    repo.memo[key] = out
+    if not repo.has_class(cls):
+        return out
+    ci = repo.find_class(cls)
+    init = ci.methods.get("__init__")
+    known = api_signature(init) if init is not None else None
+    if init is None or known is None:
+        return out
+    a = init.node.args
+    pos = a.posonlyargs + a.args
+    defaults = dict(zip([x.arg for x in reversed(pos)], reversed(a.defaults)))
+    defaults.update({x.arg: d for x, d in zip(a.kwonlyargs, a.kw_defaults) if d is not None})
+    ext = {p: defaults[p] for p in init.params if p not in known and p in defaults and isinstance(defaults[p], ast.Constant)}
+    if not ext:
+        return out
+    cand = {}
+    for st in init.node.body:
+        if isinstance(st, ast.Assign) and len(st.targets) == 1 and isinstance(st.targets[0], ast.Attribute) \
+                and isinstance(st.targets[0].value, ast.Name) and st.targets[0].value.id == "self" \
+                and isinstance(st.value, ast.Name) and st.value.id in ext:
+            cand[st.targets[0].attr.lstrip("_")] = st.value.id
+    for name, param in list(cand.items()):
+        ok = True
+        # no other write inside the class (the field's own setter storing its argument apart)
+        for fi in list(ci.methods.values()) + list(ci.setters.values()) + list(ci.getters.values()):
+            for n in ast.walk(fi.node):
+                if isinstance(n, ast.Attribute) and isinstance(n.ctx, (ast.Store, ast.Del)) and n.attr.lstrip("_") == name:
+                    own_setter = fi.name == name and any(d.endswith(".setter") for d in fi.decorators)
+                    in_init = fi is init
+                    if not (own_setter or in_init):
+                        ok = False
+            if fi is init:
+                n_init = sum(1 for n in ast.walk(fi.node) if isinstance(n, ast.Attribute) and isinstance(n.ctx, ast.Store)
+                             and n.attr.lstrip("_") == name)
+                if n_init != 1:
+                    ok = False
+        # ... nor anywhere else in the library, and no construction site passes the option
+        n_known = len([p for p in init.params if p != "self" and p in known])
+        for mi in repo.modules.values():
+            for n in ast.walk(mi.tree):
+                if isinstance(n, ast.Attribute) and isinstance(n.ctx, (ast.Store, ast.Del)) and n.attr.lstrip("_") == name \
+                        and not (isinstance(n.value, ast.Name) and n.value.id == "self"):
+                    ok = False
+                if isinstance(n, ast.Call):
+                    fname = n.func.attr if isinstance(n.func, ast.Attribute) else (n.func.id if isinstance(n.func, ast.Name) else None)
+                    sub_init = False
+                    if fname == "__init__":
+                        # super().__init__(...) of a subclass
+                        for c2 in mi.classes.values():
+                            if c2.name != cls and any(x.name == cls for x in repo.mro(c2.name)) and any(
+                                    n is y for m2 in c2.methods.values() for y in ast.walk(m2.node)):
+                                sub_init = True
+                    if fname == cls or sub_init:
+                        if any(k.arg == param or k.arg is None for k in n.keywords) or len(n.args) > n_known \
+                                or any(isinstance(x, ast.Starred) for x in n.args):
+                            ok = False
+                    if fname in ("setattr",) and len(n.args) >= 2 and isinstance(n.args[1], ast.Constant) \
+                            and str(n.args[1].value).lstrip("_") == name:
+                        ok = False
+        if ok:
+            out[name] = ("const", ext[param].value)
+    return out
+
+
 HEAP_METHODS = {"insert", "remove", "update", "is_empty", "is_full", "go_up", "go_down"}
 
 
@@ -1955,6 +2040,11 @@ class Walker:
                 return ("mod", f"{base[1]}.{e.attr}")
             if base[0] == "call" and base[1] == ("mod", "struct.Struct") and len(base[2]) == 1 and e.attr == "size":
                 return ("call", ("mod", "struct.calcsize"), base[2], ())  # struct.Struct(fmt).size
+            if base == ("self",) and isinstance(e.ctx, ast.Load) and self.self_class:
+                ext = extension_fields(self.repo, self.self_class)
+                if e.attr.lstrip("_") in ext and self.fnstack[-1].name != "__init__" \
+                        and not any(d.endswith(".setter") for d in self.fnstack[-1].decorators):
+                    return ext[e.attr.lstrip("_")]
             t = ("attr", base, e.attr)
             return self.subst.get(t, t)
         if isinstance(e, ast.Subscript):
@@ -2191,6 +2281,14 @@ class Walker:
                 return hit[0]
             if not hit and all(k[0] == "const" for k, _ in fn[1][1]):
                 return args[1] if len(args) == 2 else ("const", None)
+        # float(M[a][b]) and np.asarray(M[a], dtype=np.float64) on the pre-computed matrix (float64 as loaded / built) are
+        # the entries themselves; a narrower dtype is not
+        if _matrix_rooted(args[0] if len(args) == 1 else None):
+            if fn == ("builtin", "float") and not kwargs:
+                return args[0]
+            if fn in (("mod", "numpy.asarray"), ("mod", "numpy.asanyarray"), ("mod", "numpy.float64")) and (
+                    not kwargs or kwargs == (("dtype", ("mod", "numpy.float64")),) or kwargs == (("dtype", ("builtin", "float")),)):
+                return args[0]
         # operator.lt(a, b) and friends are the comparisons themselves
         if fn[0] == "mod" and fn[1] in OPERATOR_CMP and len(args) == 2 and not kwargs:
             return mk_cmp(OPERATOR_CMP[fn[1]], args[0], args[1])
@@ -2571,6 +2669,89 @@ def substitute_view(w, mapping: Dict[Term, Term]):
     for g, src in list(w.guard_src.items()):
         view.guard_src.setdefault(R(g), src)
     return view
+
+
+def settle_lazy_inits(w) -> int:
+    """`row = None` before a loop and `if row is None: row = E` inside it, with E the same value in every iteration (it
+    mentions nothing the loop changes): wherever the loop reads `row` after that statement it reads E.  The merged value
+    `E if row is None else row` is replaced, in place, by E.  Returns the number of replaced variables."""
+    import dataclasses
+    mapping = {}
+    for li in w.loops.values():
+        for v, (init, end) in li.carried.items():
+            if init != ("const", None):
+                continue
+            phi = ("phi", li.lid, v)
+            leaves = []
+
+            def collect(t):
+                if t[0] == "sel":
+                    collect(t[2])
+                    collect(t[3])
+                else:
+                    leaves.append(t)
+            collect(end)
+            vals = {x for x in leaves if x != phi}
+            if len(vals) != 1 or phi not in leaves:
+                continue
+            E = next(iter(vals))
+            varying = False
+            for u in subterms(E):
+                if u[0] in ("phi", "iter", "iterproj") and (u[-2] if u[0] == "iterproj" else u[-1] if u[0] == "iter" else u[1]) is not None:
+                    lid = u[1] if u[0] == "phi" else u[2]
+                    if lid == li.lid or (lid in w.loops and li.lid in w.loops[lid].loops):
+                        varying = True
+                if u[0] in ("old", "hremove") and u != E:
+                    pass
+            roots = {root_object(u) for u in subterms(E) if u[0] in ("idx", "attr")}
+            fields = {u[2] for u in subterms(E) if u[0] == "attr"}
+            for e in w.events:
+                if li.lid in e.loops and e.kind == "store":
+                    tgt = e.target
+                    while tgt[0] == "idx":
+                        tgt = tgt[1]
+                    if tgt[0] == "attr" and tgt[2] in fields:
+                        varying = True
+            if varying:
+                continue
+            isnone = ("cmp", "is", phi, ("const", None))
+            for e in w.events:
+                for top in [x for x in (e.target, e.value) if x is not None] + list(e.args or ()) + [g for g, _ in e.guards]:
+                    for t in subterms(top):
+                        if t[0] == "sel" and t[2] == E and t[3] == phi and (t[1] == isnone or (t[1][0] == "and" and isnone in t[1][1])):
+                            mapping[t] = E
+                        if t[0] == "sel" and t[3] == E and t[2] == phi and t[1] == mk_not(isnone):
+                            mapping[t] = E
+            for l2 in w.loops.values():
+                for n2, (a2, b2) in l2.carried.items():
+                    for t in list(subterms(a2)) + list(subterms(b2)):
+                        if t[0] == "sel" and t[2] == E and t[3] == phi and (t[1] == isnone or (t[1][0] == "and" and isnone in t[1][1])):
+                            mapping[t] = E
+    if not mapping:
+        return 0
+
+    def R(t):
+        if t is None:
+            return None
+        if t in mapping:
+            return R(mapping[t])
+        if isinstance(t, tuple):
+            t = tuple(R(x) if isinstance(x, tuple) else x for x in t)
+            if t and t[0] == "call" and t[1] == ("builtin", "float") and len(t[2]) == 1 and not t[3] and _matrix_rooted(t[2][0]):
+                return t[2][0]  # (the same equivalence the walk applies when it sees the entry directly)
+        return t
+    for i, e in enumerate(w.events):
+        w.events[i] = dataclasses.replace(e, target=R(e.target), value=R(e.value), args=tuple(R(a) for a in (e.args or ())),
+                                          kwargs=tuple((k, R(v)) for k, v in (e.kwargs or ())),
+                                          guards=tuple((R(g), pol) for g, pol in e.guards))
+    w.events[:] = [e for e in w.events if not (e.kind == "call" and e.name == "builtin.float" and e.value is not None
+                                                and e.value[0] != "call")]
+    for li in w.loops.values():
+        li.cond = R(li.cond)
+        li.domain = R(li.domain)
+        li.guards = tuple((R(g), pol) for g, pol in li.guards)
+        li.carried = {n: (R(a), R(b)) for n, (a, b) in li.carried.items()}
+    return len(mapping)
 
 
 def settle_removed_costs(w) -> int:
